@@ -48,6 +48,8 @@ def shapes(tier):
     # a user prior in which one nonlinear parameter depends on another (e | P): the log-density must be evaluated on the row's own P
     out.append({"what": "sample_logp", "generate_linear": False, "custom": "e_given_P"})
     out.append({"what": "sample_logp", "generate_linear": True, "custom": "e_given_P"})
+    # a parameter declared as a transformed variable: P = exp(lnP), lnP uniform (density of P is 1/P up to a constant)
+    out.append({"what": "sample_logp", "generate_linear": False, "custom": "P_deterministic"})
     out.append({"what": "sample_logp", "generate_linear": True, "history": "float32_first"})
     out.append({"what": "sample_logp", "generate_linear": False, "history": "linear_first"})
     return out
@@ -269,6 +271,12 @@ def _sample_prior(shape):
             P = xu.with_unit(UniformLog("P", 3.0, 300.0), u.day)
             e = xu.with_unit(pm.Beta("e", alpha=pt.switch(pt.lt(P, 20.0), 0.697, 1.12), beta=3.2), u.one)
             return tj.JokerPrior.default(sigma_K0=20 * u.km / u.s, sigma_v=50 * u.km / u.s, pars={"P": P, "e": e})
+    if shape.get("custom") == "P_deterministic":
+        import pytensor.tensor as pt
+        with pm.Model():
+            lnP = pm.Uniform("lnP", np.log(3.0), np.log(300.0))
+            P = xu.with_unit(pm.Deterministic("P", pt.exp(lnP)), u.day)
+            return tj.JokerPrior.default(sigma_K0=20 * u.km / u.s, sigma_v=50 * u.km / u.s, pars={"P": P})
     if shape.get("offsets"):
         with pm.Model():
             dv = xu.with_unit(pm.Normal("dv0_1", 0.0, 4.0), u.km / u.s)
@@ -413,6 +421,18 @@ def replay(cand):
             dlt = np.asarray(a["ln_prior"]) - want
             if np.ptp(dlt) > 1e-5:
                 bad.append("ln_prior - log joint density is not constant across rows (spread %.3g)" % np.ptp(dlt))
+        elif what == "kipping":
+            from thejoker import distributions as D
+            for nm, (al, be) in {"Kipping13Global": (0.867, 3.03), "Kipping13Long": (1.12, 3.09), "Kipping13Short": (0.697, 3.27)}.items():
+                for x in (0.05, 0.3, 0.8):
+                    got = float(pm.logp(getattr(D, nm).dist(), x).eval())
+                    want = float(st.beta(al, be).logpdf(x))
+                    if not np.isclose(got, want, rtol=1e-6, atol=1e-9):
+                        bad.append("logp(%s, %g) = %r, Beta(%g, %g) gives %r" % (nm, x, got, al, be, want))
+                        break
+                dr = pm.draw(getattr(D, nm).dist(), draws=4000, random_seed=np.random.default_rng(9))
+                if st.kstest(dr, st.beta(al, be).cdf).pvalue < 1e-4:
+                    bad.append("%s draws do not follow Beta(%g, %g)" % (nm, al, be))
         else:
             return {"reproduced": False, "detail": "structural claim; nothing to replay"}
     except Exception as e:
